@@ -857,6 +857,12 @@ func divFacts(a, b *Term, known func(*Term) bool) (q, r *Term, facts []*Term) {
 		return mkBig(new(big.Int).Quo(a.Int, b.Int)), mkBig(new(big.Int).Rem(a.Int, b.Int)), nil
 	}
 	if len(a.open) > 0 || len(b.open) > 0 {
+		if b.Kind != KInt {
+			// a quotient by a non-constant divisor under a binder: the same uninterpreted go.quo the code side
+			// uses, so that an instance of a quantified invariant and the code's own quotient are one term
+			// (a term with bound variables cannot carry facts; the closed instance gets them where it is built)
+			return mkUF("go.quo", SInt, a, b), mkUF("go.rem", SInt, a, b), nil
+		}
 		return GoDiv(a, b), GoMod(a, b), nil
 	}
 	if b.Kind == KInt && b.Int.Sign() > 0 {
@@ -872,8 +878,6 @@ func divFacts(a, b *Term, known func(*Term) bool) (q, r *Term, facts []*Term) {
 			Eq(a, Add(Mul(b, q), r)),
 			Implies(Ge(a, z), And(Le(z, r), Lt(r, b), Ge(q, z), Le(q, a))),
 			Implies(Lt(a, z), And(Lt(Neg(b), r), Le(r, z), Le(q, z))),
-			// link to the form quantified specifications use (terms with bound variables cannot carry facts)
-			Eq(q, GoDiv(a, b)),
 		}
 		return
 	}
@@ -883,7 +887,6 @@ func divFacts(a, b *Term, known func(*Term) bool) (q, r *Term, facts []*Term) {
 		Implies(And(Ge(a, z), Lt(b, z)), And(Le(z, r), Lt(r, Neg(b)), Le(q, z))),
 		Implies(And(Lt(a, z), Gt(b, z)), And(Lt(Neg(b), r), Le(r, z), Le(q, z))),
 		Implies(And(Lt(a, z), Lt(b, z)), And(Lt(b, r), Le(r, z), Ge(q, z))),
-		Implies(Neq(b, z), Eq(q, GoDiv(a, b))),
 	}
 	return
 }
